@@ -259,12 +259,24 @@ func (a *analyzer) importPackageSymbols(scope *Scope, pkgName, currentPkg string
 		return
 	}
 	for _, ext := range syms {
-		// Don't overwrite locally defined symbols
-		if scope.LookupLocalVisible(ext.Name, currentPkg) != nil {
+		// Don't overwrite locally defined symbols.  A language builtin of the
+		// same name does not count: use-package binds the exported symbol in
+		// the importing package, where it shadows the builtin.
+		if existing := scope.LookupLocalVisible(ext.Name, currentPkg); existing != nil && !isLanguageBuiltin(existing) {
 			continue
 		}
 		scope.DefineImported(importedSymbol(scope, ext), currentPkg)
 	}
+}
+
+// isLanguageBuiltin reports whether sym is a builtin function or builtin
+// macro registered by populateBuiltins (as opposed to anything a program
+// defines or imports).
+func isLanguageBuiltin(sym *Symbol) bool {
+	if sym.External || sym.Package != "" {
+		return false
+	}
+	return sym.Kind == SymBuiltin || (sym.Kind == SymMacro && !isUserMacro(sym))
 }
 
 // importedSymbol returns the symbol an import of ext makes visible.  When the
